@@ -681,7 +681,13 @@ fn run_task(task: &TaskSpec, fss: &[FsSpec], yield_hook: Option<&dyn Fn()>) -> T
 /// usually payload data), digit runs replaced by '#', at most 80 characters
 pub fn msg_prefix(msg: &str) -> String {
     let first = msg.lines().next().unwrap_or("");
-    let cut = first.find(": ").unwrap_or(first.len());
+    // (for a failed assert! what follows "assertion failed: " is the asserted expression - source
+    // text, not payload - and is what tells two assertions of one function apart)
+    let cut = if first.starts_with("assertion failed: ") {
+        first.len()
+    } else {
+        first.find(": ").unwrap_or(first.len())
+    };
     let mut out = String::new();
     let mut in_digits = false;
     for c in first[..cut].chars() {
